@@ -248,7 +248,7 @@ var slowestLen int
 func TestC20(t *testing.T) {
 	world.Quiet()
 	run := rep.New("C20", "exploration",
-		"Part A: seeded generative inputs (corpus of each provider's real listing / metrics / completion / SSE shapes, 14 structure-aware and byte-level mutators, 1-4 mutations each) fed to every shipped profile's ParseModelsResponse, a field-state generator of listings (every known field of every provider's listing shape independently absent / typical / zero / null / wrong type / hostile) driven through parse -> unification -> registration in a real unified registry, metrics ExtractMetrics/ExtractFromChunk per provider, anthropic TransformResponse and TransformStreamingResponse (arbitrary read cuts); oracle: no panic, returns within the watchdog, parsed entries non-nil with non-empty names, extracted numbers finite. Part B: hostile bodies through the running stack as health answers, model listings, completions, backend error bodies and stream chunks on proxy / passthrough / translated routes (stream on/off), with a concurrent liveness probe and the endpoint's catalogue compared before/after. distinct = distinct (target, input hash) / (route, body class)")
+		"Part A: seeded generative inputs (corpus of each provider's real listing / metrics / completion / SSE shapes, 14 structure-aware and byte-level mutators, 1-4 mutations each) fed to every shipped profile's ParseModelsResponse, a field-state generator of listings (every known field of every provider's listing shape independently absent / typical / zero / null / wrong type / hostile) driven through parse -> unification -> registration in a real unified registry, metrics ExtractMetrics/ExtractFromChunk per provider, anthropic TransformResponse and TransformStreamingResponse (arbitrary read cuts); plus every byte value repeated 1/19/21/64/300 times as a whole body, as an SSE data payload and inside JSON strings, to all four families; oracle: no panic, returns within the watchdog, parsed entries non-nil with non-empty names, extracted numbers finite. Part B: hostile bodies through the running stack as health answers, model listings, completions, backend error bodies and stream chunks on proxy / passthrough / translated routes (stream on/off), with a concurrent liveness probe and the endpoint's catalogue compared before/after. distinct = distinct (target, input hash) / (route, body class)")
 	run.Assume("panics on the calling goroutine are caught by recover(); a crash on another goroutine or a fatal error kills the test binary and is reported by the driver with the last input written to disk")
 	seed := rep.Seed()
 	wd := filepath.Join(rep.VerifDir(), ".work", "C20")
@@ -503,6 +503,42 @@ func partA(run *rep.Run, seed int64) {
 			}
 		})
 	}
+	// 5. byte-class payloads: every byte value, repeated 1 / 19 / 21 / 64 / 300 times, as a whole
+	// body, as the payload of an SSE data line, and inside a JSON string - the systematic
+	// counterpart of the random mutators for code that scans or truncates backend bytes
+	// (UTF-8 boundary searches, NUL handling, escapes)
+	for bv := 0; bv < 256; bv++ {
+		for _, n := range []int{1, 19, 21, 64, 300} {
+			pay := bytes.Repeat([]byte{byte(bv)}, n)
+			inputs := [][]byte{pay, append(append([]byte("data: "), pay...), '\n', '\n'),
+				append(append([]byte("data: {\"choices\":[{\"delta\":{\"content\":\""), pay...), []byte("\"}}]}\n\ndata: [DONE]\n\n")...),
+				append(append([]byte(`{"models":[{"name":"`), pay...), []byte(`"}],"data":[{"id":"x"}]}`)...)}
+			for k, in := range inputs {
+				in := in
+				target := fmt.Sprintf("ByteClass/%d", k)
+				note(target, in)
+				guard(run, "TransformStreamingResponse", in, func() {
+					_ = tr.TransformStreamingResponse(ctx, &cutReader{b: in, rng: rng}, httptest.NewRecorder(), origReq)
+				})
+				p := profiles[(bv+k)%len(profiles)]
+				guard(run, "ParseModelsResponse/"+p.GetName(), in, func() {
+					if ms, err := p.ParseModelsResponse(in); err == nil {
+						_, _ = uni.UnifyModels(ctx, ms, &domain.Endpoint{Name: "bc", URLString: "http://10.20.0.2:11434", Type: p.GetName()})
+					}
+				})
+				pn := names[(bv+k)%len(names)]
+				guard(run, "ExtractMetrics/"+pn, in, func() {
+					_ = ext.ExtractFromChunk(ctx, in, pn)
+					_ = ext.ExtractMetrics(ctx, in, http.Header{}, pn)
+				})
+				var v interface{}
+				if json.Unmarshal(in, &v) == nil {
+					guard(run, "TransformResponse", in, func() { _, _ = tr.TransformResponse(ctx, v, origReq) })
+				}
+			}
+		}
+	}
+	run.Count("byte_class_inputs", 256*5*4)
 	run.Note("distinct_inputs_partA", len(hashes))
 	run.Note("slowest_partA_case", map[string]any{"target": slowestTarget, "ms": slowest.Milliseconds(), "input_len": slowestLen, "input_prefix": slowestHead})
 	for h := range hashes {
